@@ -286,6 +286,13 @@ func runEdDSA(c *mon.Ctx, d *sigs.EdDSA) {
 		e.arbitrary(keys[0], h, m, c.Pick(72, 1500))
 	}
 	e.pubKeyDecoding(keys[0])
+	// last: the curve parameters handed out by the package are the caller's own copy (Sign reduces modulo the order)
+	if eff.GetterPrivate != nil {
+		if err := eff.GetterPrivate(); err != nil {
+			c.Fail(N+"/GetEdwardsCurve/returned-parameters-share-storage-with-the-package", "%v", err)
+		}
+		c.Eval("GetEdwardsCurve", 1)
+	}
 }
 
 // checkKey: structure of a private key and all byte round trips. seed = the bytes GenerateKey read (nil: not generated).
